@@ -61,7 +61,7 @@ func c20ErrClass(err error) string {
 	case strings.HasPrefix(s, "'") && strings.Contains(s, ": invalid uri scheme"):
 		return "scheme"
 	}
-	return "other(" + hexS(s) + ")"
+	return "?" // an error whose text the harness does not know (a reworded message): class left open
 }
 
 func c20Canon(d deeplinks.Deeplink, err error) string {
@@ -184,10 +184,11 @@ func c20HexList(xs []string) string {
 // about the links before and after. A []string handed to a caller is the caller's: building an own
 // allow-list from a prefix of it (append to a re-slice: in place when there is spare capacity), or
 // rewriting its elements (look-alike hosts, normalisation), must not change what Resolve does later.
-//   read          the list is only read
-//   append k ns   own := append(list[:k], ns...)
-//   assign k ns   list[(k+i) % len] = ns[i]
-//   prefix k ns   list[i] = ns[0] + list[i] for every i >= k
+//
+//	read          the list is only read
+//	append k ns   own := append(list[:k], ns...)
+//	assign k ns   list[(k+i) % len] = ns[i]
+//	prefix k ns   list[i] = ns[0] + list[i] for every i >= k
 func c20Alias(how string, k int, names, links []string) string {
 	resolveAll := func() []string {
 		var rs []string
@@ -410,7 +411,7 @@ func c20JudgeResult(link, res string) string {
 	if !strings.HasPrefix(res, "err:") && !strings.HasPrefix(res, "ok:resolve:") && !strings.HasPrefix(res, "ok:join:") {
 		return fmt.Sprintf("Resolve(%q) returned neither a username, an invite nor an error: %s", link, res)
 	}
-	if strings.HasPrefix(res, "err:other(") {
+	if res == "err:?" {
 		return "" // an error of an unknown class is still an error
 	}
 	// sanity of every ok result, structured or not
